@@ -643,3 +643,146 @@ Proof.
   - intros Hc t th Hth. destruct (closer_body (t_pc th)) eqn:B; [|reflexivity].
     destruct (runner_once _ _ _ (I2 _ _ Hth) B) as [O1 _]. unfold close_returned in Hc. rewrite O1 in Hc. discriminate.
 Qed.
+
+(* ---- a caller in Receiver.Direct's select exists only with a receiver ---- *)
+Definition Inv4 (s : st) : Prop :=
+  forall t th, threads s t = Some th -> t_pc th = NPut -> has_recv s = true.
+
+Lemma inv4_step fx s l s' : Inv4 s -> stepf fx s l = Some s' -> Inv4 s'.
+Proof.
+  intros I H. step_inv H; intros t0 th0 Ht0 Hp; asimp;
+    try (apply updt_cases in Ht0; destruct Ht0 as [[-> ->]|[Hne Ht0]]);
+    try (eapply I; eassumption); try discriminate Hp; try reflexivity; try assumption.
+  all: try (destruct k; discriminate Hp).
+Qed.
+
+Lemma inv4_reach fx r cap s : reach fx r cap s -> Inv4 s.
+Proof. apply invariant_reachable; [intros t th H; discriminate H|apply inv4_step]. Qed.
+
+Definition enabled (fx : bool) (s : st) (t : nat) : Prop := exists c s', stepf fx s (Step t c) = Some s'.
+
+Ltac en_go c Hth Hpc := exists c; cbn [stepf]; rewrite Hth; unfold step_thread; rewrite Hpc.
+
+(* after Close has returned, every call still in progress or made later has an enabled step
+   (so it returns instead of blocking); the only wait is for expSyncMutex, whose holder is a
+   caller that is itself about to return "shutdown" *)
+Theorem entry_points_return_after_close fx r cap s t th :
+  reach fx r cap s -> close_returned s = true -> threads s t = Some th ->
+  (forall res, t_pc th <> Fin res) ->
+  enabled fx s t \/
+  (t_pc th = ELock /\ exists h thh, exp_mu s = Some h /\ threads s h = Some thh /\
+                      (t_pc thh = ECheck \/ t_pc thh = ERefuse) /\ enabled fx s h).
+Proof.
+  intros R Hc Hth Hnf. pose proof (returned_stage _ _ _ _ R Hc) as Hs.
+  destruct (inv1_reach _ _ _ _ R) as (I1 & I2 & I3).
+  destruct (inv2_reach _ _ _ _ R) as (J1 & J2 & J3).
+  destruct (inv3_reach _ _ _ _ R) as (K1 & K2 & _).
+  destruct (stage_active _ _ _ _ _ _ R Hth) as [A1 A2].
+  specialize (A1 ltac:(lia)). specialize (A2 ltac:(lia)).
+  destruct (close_idempotent_concurrent _ _ _ _ R) as (_ & _ & NB). specialize (NB Hc).
+  pose proof (NB _ _ Hth) as Hb.
+  assert (Hec : exp_closed s = true) by (apply J2; lia).
+  unfold close_returned in Hc. destruct (once s) eqn:Ho; try discriminate Hc.
+  unfold exp_active, async_active in *.
+  destruct (t_pc th) as [| | | | | | | | | | | | | | | | | |left| | | | | | | |left| | | | | |res] eqn:Hpc;
+    try discriminate Hb; try discriminate A1; try discriminate A2.
+  - left. en_go 0 Hth Hpc. rewrite Ho. eexists; reflexivity.
+  - (* ELock *)
+    destruct (exp_mu s) as [h|] eqn:Hmu.
+    + right. split; [reflexivity|]. destruct (J3 _ eq_refl) as (thh & Hh & Hcs).
+      exists h, thh. split; [reflexivity|]. split; [exact Hh|].
+      pose proof (J1 _ _ Hh) as T2. unfold tinv2 in T2. pose proof (NB _ _ Hh) as Hbh.
+      destruct (t_pc thh) eqn:Hph; try discriminate Hcs; try discriminate Hbh;
+        try (cbn in T2; rewrite Hec in T2; cbn in T2; rewrite andb_false_r in T2; discriminate T2).
+      * split; [left; reflexivity|]. en_go 0 Hh Hph. rewrite Hec. eexists; reflexivity.
+      * split; [right; reflexivity|]. en_go 0 Hh Hph. eexists; reflexivity.
+    + left. en_go 0 Hth Hpc. rewrite Hmu. eexists; reflexivity.
+  - left. en_go 0 Hth Hpc. rewrite Hec. eexists; reflexivity.
+  - left. en_go 0 Hth Hpc. eexists; reflexivity.
+  - left. en_go 0 Hth Hpc. eexists; reflexivity.
+  - left. en_go 0 Hth Hpc. eexists; reflexivity.
+  - (* NCheck *)
+    left. en_go 0 Hth Hpc. destruct (has_recv s); [destruct (recv_closed s)|]; eexists; reflexivity.
+  - (* NPut *)
+    left. en_go 1 Hth Hpc. pose proof (inv4_reach _ _ _ _ R _ _ Hth Hpc) as Hr.
+    rewrite (K2 ltac:(lia) Hr). eexists; reflexivity.
+  - (* ASemRel *)
+    left. en_go 0 Hth Hpc. destruct (t_sem th); eexists; reflexivity.
+  - exfalso. eapply Hnf. reflexivity.
+Qed.
+
+(* a call made after Close returned ends with the refusal *)
+Theorem late_calls_refused fx r cap s t th res :
+  reach fx r cap s -> threads s t = Some th -> t_late th = true -> t_pc th = Fin res ->
+  res = match t_kind th with
+        | KExp _ _ => RShutdown
+        | KAnn _ => if has_recv s then RErrClosed else RNil
+        | _ => RNil
+        end.
+Proof.
+  intros R Hth Hl Hpc. destruct (inv3_reach _ _ _ _ R) as (K1 & _).
+  pose proof (K1 _ _ Hth) as T. unfold tinv3 in T. rewrite Hl in T.
+  apply andb_prop in T. destruct T as [_ T]. cbn in T. apply andb_prop in T. destruct T as [_ T].
+  unfold late_ok in T. rewrite Hpc in T.
+  destruct (t_kind th); destruct res; destruct (has_recv s); cbn in T; try discriminate T; reflexivity.
+Qed.
+
+(* ... and such a call never gets past the gate / the receiver check / the Once *)
+Theorem late_calls_do_nothing fx r cap s t th :
+  reach fx r cap s -> threads s t = Some th -> t_late th = true ->
+  late_ok (has_recv s) (t_kind th) (t_pc th) = true /\ close_returned s = true.
+Proof.
+  intros R Hth Hl. destruct (inv3_reach _ _ _ _ R) as (K1 & _).
+  pose proof (K1 _ _ Hth) as T. unfold tinv3 in T. rewrite Hl in T.
+  apply andb_prop in T. destruct T as [_ T]. cbn in T. apply andb_prop in T. destruct T as [T1 T2]. auto.
+Qed.
+
+(* OnSyncFinished after (or during) Close, repaired code: the registration can always give up *)
+Theorem registration_returns_when_closing r cap s l x :
+  reach true r cap s -> 2 <= stage s -> lst (co s) l = Some x -> l_reg x = false -> l_in_closed x = false ->
+  exists s', stepf true s (Core (LAddClosed l)) = Some s'.
+Proof.
+  intros R Hs Hl Hr Hc. destruct (inv3_reach _ _ _ _ R) as (_ & _ & _ & _ & _ & _ & K7 & _).
+  cbn [stepf C15_Shutdown.core_label_ok cstep]. rewrite Hl, Hr, Hc, (proj2 K7 Hs). cbn. eexists; reflexivity.
+Qed.
+
+(* the cancel func: its select has the <-s.closing case ready *)
+Theorem cancel_returns_when_closing fx r cap s :
+  reach fx r cap s -> 2 <= stage s -> closing (co s) = true.
+Proof. intros R Hs. apply (inv3_reach _ _ _ _ R). exact Hs. Qed.
+
+(* the code as found: after Close, OnSyncFinished blocks for ever on addEventChan *)
+Definition reg_witness : list label :=
+  [Spawn KClose; Step 0 0; Step 0 0; Step 0 0; Step 0 0; Step 0 0; Step 0 0; Step 0 0; Step 0 0;
+   Step 0 0; Step 0 0; Step 0 0; Core LDist; Core LDist; Core LNew].
+
+Lemma ddone_forever fx s s' :
+  reachable (stepf fx) s s' -> d_pc (co s) = DDone -> d_pc (co s') = DDone.
+Proof.
+  intros [ls Hr]. revert s Hr. induction ls as [|l ls IH]; intros s Hr Hd; cbn in Hr.
+  - inversion Hr; subst; exact Hd.
+  - destruct (stepf fx s l) as [s1|] eqn:E; [|discriminate].
+    apply (IH s1 Hr). destruct (co_step _ _ _ _ E) as [->|(lb & Hc)]; [exact Hd|].
+    eapply ddone_stable; eassumption.
+Qed.
+
+Theorem entry_points_return_after_close_refuted :
+  exists s, reach false false 0 s /\ close_returned s = true /\
+    (exists x, lst (co s) 0 = Some x /\ l_reg x = false /\ l_in_closed x = false) /\
+    forall s', reachable (stepf false) s s' ->
+      stepf false s' (Core (LAdd 0)) = None /\ stepf false s' (Core (LAddClosed 0)) = None.
+Proof.
+  assert (H : option_map (fun s => (close_returned s, match d_pc (co s) with DDone => true | _ => false end,
+                                    match lst (co s) 0 with Some x => negb (l_reg x) && negb (l_in_closed x) | None => false end))
+                (run (stepf false) (init false 0) reg_witness) = Some (true, true, true))
+    by (vm_compute; reflexivity).
+  destruct (run (stepf false) (init false 0) reg_witness) as [s|] eqn:E; [|discriminate].
+  exists s. split; [exists reg_witness; exact E|].
+  cbn [option_map] in H. injection H as H1 H2 H3.
+  split; [exact H1|]. split.
+  - destruct (lst (co s) 0) as [x|]; [|discriminate]. exists x. split; [reflexivity|].
+    apply andb_prop in H3. destruct H3 as [A B]. apply negb_true_iff in A, B. auto.
+  - intros s' Hr. assert (Hd : d_pc (co s') = DDone).
+    { eapply ddone_forever; [exact Hr|]. destruct (d_pc (co s)); try discriminate; reflexivity. }
+    split; cbn [stepf C15_Shutdown.core_label_ok cstep]; [rewrite Hd|]; reflexivity.
+Qed.
